@@ -18,6 +18,8 @@ extern "C" int xor_check_base(int vects, int len, void **array);
 extern "C" int pq_check_base(int vects, int len, void **array);
 extern "C" int mem_zero_detect_base(void *buf, size_t n);
 
+int g_kern_portable = 0; // 1: keep only implementation-independent observables in the history (C16 cross-configuration comparison)
+
 namespace
 {
 typedef uint64_t (*crc64_fn)(uint64_t, const unsigned char *, uint64_t);
@@ -317,7 +319,7 @@ struct Kern {
                         memset(hs->data, 0, hs->len);
                         if (GUARDED(gc, isal_update_histogram(s->data, (int) l, (struct isal_huff_histogram *) hs->data)))
                                 return fault("isal_update_histogram");
-                        h.rec("isal_update_histogram", { (int64_t) l, (int64_t) hash_bytes(hs->data, hs->len) });
+                        h.rec("isal_update_histogram", { (int64_t) l, g_kern_portable ? 0 : (int64_t) hash_bytes(hs->data, hs->len) });
                         h.sigmix(0x7157 ^ (l % 257) << 8);
                         if (!g_arena.canary_ok(hs) || !g_arena.canary_ok(s)) {
                                 rr.fail("C05.canary", "isal_update_histogram wrote outside the histogram");
@@ -383,7 +385,10 @@ struct Kern {
                                     dr = cr == 0 ? isal_inflate_stateless(st) : -99;
                             }))
                                 return fault("one-shot deflate/inflate round trip");
-                        h.rec("roundtrip", { (int64_t) l, level, cr, dr, z->total_out, (int64_t) hash_bytes(o->data, cr == 0 ? z->total_out : 0) });
+                        if (g_kern_portable) // compressed bytes may legitimately differ between implementations; decoded data and return codes may not
+                                h.rec("roundtrip", { (int64_t) l, level, cr, dr, (int64_t) hash_bytes(d->data, l) });
+                        else
+                                h.rec("roundtrip", { (int64_t) l, level, cr, dr, z->total_out, (int64_t) hash_bytes(o->data, cr == 0 ? z->total_out : 0) });
                         h.sigmix(0x9090 ^ (uint64_t) level << 8 ^ (l % 257) << 16);
                         if (cr != 0 || dr != 0 || memcmp(d->data, s->data, l)) {
                                 rr.fail("C16.roundtrip", strf("one-shot deflate (ret %d, level %d) + inflate (ret %d) of %zu bytes does not round-trip", cr, level, dr, l));
